@@ -110,6 +110,13 @@ func cmdCheck(args []string) int {
 		}
 	}
 	run.obls = append(run.obls, v.lemmaObligations(*prop)...)
+	if g := v.contracts["call.exec.contextFn"]; g != nil && hasProp(g, *prop) {
+		dob, derrs := v.dispatchObligations()
+		run.obls = append(run.obls, dob...)
+		for _, e := range derrs {
+			translationErrors = append(translationErrors, "exec.execContext: "+e)
+		}
+	}
 	// solve
 	var wg sync.WaitGroup
 	var mu sync.Mutex
